@@ -15,6 +15,12 @@ import RV.Base.Proto
     readn3 tok…                -> `unreadable`, or the tree the reader builds (same prefix form as evalsyn's input)
                                   ` => ` the path `translate` makes of it (prefix form of `eval`'s input)
     evaln3 S O <path>          -> `unreadable`, or the `eval` answer of translate (read (n3 (build path)))
+    api S O <path>             -> the Graph API answers for the built path (gContains / gObjects / gSubjects /
+                                  gSubjectObjects / g…OfList / gValue…):
+                                    S O given:  in|T or in|F
+                                    S given:    objs|set|uniq|sorted unique=True list|twice|objects([S,S],unique=True)|value|0/1
+                                    O given:    subjs|…   (same with subjects)
+                                    none:       so|set of pairs|uniq|sorted unique=True list
         S, O  = a term or `*` (end not given)
         path  = prefix form of the expression the user wrote; the driver applies `build`
                 (the constructors' flattening) before evaluating:
@@ -191,6 +197,21 @@ def showPaths : List Path → List String
   | x :: xs => showPath x ++ showPaths xs
 end
 
+def showTerms (ts : List Term) : String := " ".intercalate ((sortBy lexLt (ts.map (fun t => [t]))).map showNats)
+
+def apiLine (g : Graph) (q : Path) : Option Nat → Option Nat → String
+  | some a, some b => "in|" ++ (if gContains g q a b then "T" else "F")
+  | some a, none =>
+    "objs|" ++ showTerms (uniq [] (gObjects g q (some a) false)) ++ "|uniq|" ++ showTerms (gObjects g q (some a) true) ++
+    "|twice|" ++ showTerms (gObjectsOfList g q [a, a] true) ++
+    "|value|" ++ (match gValueObj g q a with | some _ => "1" | none => "0")
+  | none, some b =>
+    "subjs|" ++ showTerms (uniq [] (gSubjects g q (some b) false)) ++ "|uniq|" ++ showTerms (gSubjects g q (some b) true) ++
+    "|twice|" ++ showTerms (gSubjectsOfList g q [b, b] true) ++
+    "|value|" ++ (match gValueSubj g q b with | some _ => "1" | none => "0")
+  | none, none =>
+    "so|" ++ showPairs (uniq [] (gSubjectObjects g q false)) ++ "|uniq|" ++ showPairs (gSubjectObjects g q true)
+
 def step (g : Graph) : List String → Graph × String
   | "graph" :: ws =>
     match triples? ws with
@@ -203,6 +224,10 @@ def step (g : Graph) : List String → Graph × String
   | "evalsyn" :: s :: o :: ws =>
     match optNat? s, optNat? o, syn? (ws.length + 1) ws with
     | some s, some o, some (t, []) => (g, answer g (translate t) s o)
+    | _, _, _ => (g, "bad-op")
+  | "api" :: s :: o :: ws =>
+    match optNat? s, optNat? o, path? (ws.length + 1) ws with
+    | some s, some o, some (p, []) => (g, apiLine g (build p) s o)
     | _, _, _ => (g, "bad-op")
   | "n3" :: ws =>
     match path? (ws.length + 1) ws with
